@@ -457,6 +457,9 @@ func (s *ServerSession) doCreateStream(tid int, stream *Stream) error {
 }
 
 func (s *ServerSession) doPublish(tid int, stream *Stream) (err error) {
+	if err = s.checkNotPubSubYet(); err != nil {
+		return err
+	}
 	if err = stream.msg.readNull(); err != nil {
 		return err
 	}
@@ -498,6 +501,9 @@ func (s *ServerSession) doPublish(tid int, stream *Stream) (err error) {
 }
 
 func (s *ServerSession) doPlay(tid int, stream *Stream) (err error) {
+	if err = s.checkNotPubSubYet(); err != nil {
+		return err
+	}
 	if err = stream.msg.readNull(); err != nil {
 		return err
 	}
@@ -537,6 +543,16 @@ func (s *ServerSession) doPlay(tid int, stream *Stream) (err error) {
 		s.DisposeByObserverFlag = true
 	}
 	return err
+}
+
+// checkNotPubSubYet a session becomes a publisher or a subscriber once; a second publish/play on the same
+// connection is refused (the connection properties and the observer registration cannot be set up twice)
+func (s *ServerSession) checkNotPubSubYet() error {
+	switch s.sessionStat.BaseType() {
+	case base.SessionBaseTypePubStr, base.SessionBaseTypeSubStr:
+		return nazaerrors.Wrap(base.ErrRtmpUnexpectedMsg)
+	}
+	return nil
 }
 
 func (s *ServerSession) modConnProps() {
